@@ -15,6 +15,8 @@ func runRound16(c *Ctx, spec *PropSpec) {
 	switch spec.ID {
 	case "C01":
 		c01CloneOwnsItsMaps(c)
+	case "C03":
+		c03FiredTimeoutIsSticky(c, "C03.R21")
 	case "C04":
 		c04VariableConditionsAreMatchers(c)
 	case "C07":
@@ -37,6 +39,8 @@ func runRound16(c *Ctx, spec *PropSpec) {
 	case "C17":
 		c17XdsRetryConditions(c)
 		c17XdsDirectResponseBodyExhaustive(c)
+		// the global timeout bounds the retries: registered under this property too
+		c03FiredTimeoutIsSticky(c, "C17.R23")
 	case "C20":
 		c20EveryRawSectionRedacted(c)
 	}
@@ -1109,4 +1113,118 @@ func c20EveryRawSectionRedacted(c *Ctx) {
 		c.Check(rule, funcKey(fn)+":raw-section-redacted:"+f.Name(), pos, ok, f.Name()+" of the redacted config is the result of a redactor",
 			"redactedMosnConfig passes the raw section "+f.Name()+" through as it is: an inline private key inside it (the ssl channel credentials of a google_grpc service in dynamic_resources, a transport socket in static_resources) is printed by the admin dump")
 	}
+}
+
+// ---------------------------------------------------------------------------------------------------------------------
+// C03.R21 (side note of the agent that reproduced repair 126; repair 129): a global timeout that has fired ends the
+// request whatever happens to the reset it delivers. upstreamRequest.OnResetStream drops every reset while a retry is
+// being set up, and an upstream reset that is already flagged hides a second one; the timeout therefore also raises a
+// flag of its own that nothing lowers, and doRetry looks at it after its interval: no further attempt, the reset is
+// flagged (again) so that the check behind the retry phase answers. Without it the request of the retry window waits
+// for ever: no attempt is open and the timer has fired.
+func c03FiredTimeoutIsSticky(c *Ctx, rule string) {
+	c.Rule(rule, "a fired global timeout is remembered in a flag nothing lowers, and doRetry reads it before it opens an attempt", 3)
+	pkg := "pkg/proxy"
+	to := c.M(pkg, "downStream", "onResponseTimeout")
+	dr := c.M(pkg, "downStream", "doRetry")
+	if to == nil || dr == nil {
+		c.Unresolved(rule, "downStream.onResponseTimeout / doRetry")
+		return
+	}
+	atomicStoreTo := func(fn *ssa.Function, val int64) map[string]ssa.Instruction {
+		out := map[string]ssa.Instruction{}
+		for _, cs := range callsIn(fn, true, func(cc *ssa.CallCommon) bool { return strings.HasSuffix(calleeName(cc), "atomic.StoreUint32") }) {
+			a := cs.Instr.Common().Args
+			t, f, _, ok := fieldAddrInfo(a[0])
+			k, isK := constInt(a[1])
+			if ok && isK && k == val && strings.HasSuffix(t, "downStream") {
+				out[f] = cs.Instr
+			}
+		}
+		return out
+	}
+	raised := atomicStoreTo(to, 1)
+	// sticky: no function of the package lowers it
+	lowered := map[string]bool{}
+	for _, fn := range c.PkgFuncs(pkg) {
+		for f := range atomicStoreTo(fn, 0) {
+			lowered[f] = true
+		}
+		for _, cs := range callsIn(fn, true, func(cc *ssa.CallCommon) bool { return strings.HasSuffix(calleeName(cc), "atomic.CompareAndSwapUint32") }) {
+			a := cs.Instr.Common().Args
+			if _, f, _, ok := fieldAddrInfo(a[0]); ok {
+				if k, isK := constInt(a[2]); isK && k == 0 {
+					lowered[f] = true
+				}
+			}
+		}
+	}
+	flag := ""
+	for f, in := range raised {
+		if lowered[f] {
+			continue
+		}
+		// raised before the reset is delivered
+		before := true
+		for _, cs := range callsIn(to, false, calledAs("OnResetStream")) {
+			if !instrDominates(in, cs.Instr) {
+				before = false
+			}
+		}
+		if before {
+			flag = f
+		}
+	}
+	c.Check(rule, funcKey(to)+":timeout-raises-a-sticky-flag", to.Pos(), flag != "", "onResponseTimeout stores 1 into downStream."+flag+", which nothing in the package lowers, before it delivers the reset",
+		"the global timeout leaves no trace but the reset it delivers through upstreamRequest.OnResetStream - which returns at once while a retry is being set up, and does nothing when an upstream reset is flagged already: a timeout that fires in the retry window is lost, the retry finds the response mark taken and opens no attempt, and the request waits for a notify that never comes")
+	if flag == "" {
+		c.Fail(rule, funcKey(dr)+":flag-read-after-the-interval", dr.Pos(), "no sticky timeout flag to read")
+		c.Fail(rule, funcKey(dr)+":timed-out-retry-flags-the-reset", dr.Pos(), "no sticky timeout flag to read")
+		return
+	}
+	var load ssa.Instruction
+	sleeps := callsIn(dr, false, func(cc *ssa.CallCommon) bool { return calleeName(cc) == "time.Sleep" })
+	for _, cs := range callsIn(dr, false, func(cc *ssa.CallCommon) bool {
+		if !strings.HasSuffix(calleeName(cc), "atomic.LoadUint32") || len(cc.Args) == 0 {
+			return false
+		}
+		_, f, _, ok := fieldAddrInfo(cc.Args[0])
+		return ok && f == flag
+	}) {
+		after := true
+		for _, sl := range sleeps {
+			if !instrDominates(sl.Instr, cs.Instr) {
+				after = false
+			}
+		}
+		if after {
+			load = cs.Instr
+		}
+	}
+	c.Check(rule, funcKey(dr)+":flag-read-after-the-interval", dr.Pos(), load != nil, "doRetry loads downStream."+flag+" after its interval",
+		"doRetry does not look at the timeout flag after its interval: a timeout whose reset was dropped while the retry was set up is never answered")
+	ok := false
+	if load != nil {
+		for _, cs := range callsIn(dr, false, func(cc *ssa.CallCommon) bool {
+			if !strings.HasSuffix(calleeName(cc), "atomic.StoreUint32") || len(cc.Args) == 0 {
+				return false
+			}
+			_, f, _, isF := fieldAddrInfo(cc.Args[0])
+			return isF && f == "upstreamReset"
+		}) {
+			for _, g := range guardsAt(cs.Instr.Block()) {
+				if derivesFrom(g.Cond, func(v ssa.Value) bool { return v == load.(ssa.Value) }) {
+					// and no attempt is opened on that edge
+					if existsPath(dr, cs.Instr, func(x ssa.Instruction) bool {
+						ci, isC := x.(ssa.CallInstruction)
+						return isC && (methodName(ci.Common()) == "initializeUpstreamConnectionPool" || methodName(ci.Common()) == "appendHeaders")
+					}, nil) == nil {
+						ok = true
+					}
+				}
+			}
+		}
+	}
+	c.Check(rule, funcKey(dr)+":timed-out-retry-flags-the-reset", dr.Pos(), ok, "on the timed-out edge doRetry flags upstreamReset and opens no attempt",
+		"doRetry sees that the request has timed out and neither flags the reset nor refrains from the attempt: the check behind the retry phase finds nothing to answer")
 }
